@@ -6,6 +6,7 @@
 -/
 import Lemmas.FirstFit
 import Lemmas.Backtrack
+import Lemmas.OptimalShape
 import Lemmas.Bytes
 import TextwrapModel.Num
 namespace TW.C06
@@ -35,44 +36,8 @@ end FirstFit
 section OptimalFit
 variable {α : Type} [CostNum α] {β : Type}
 
-/-- the shape part of the `smawk` contract -/
-def RowsShape (rows : List Nat) (n : Nat) : Prop :=
-  rows.getD 0 0 = 0 ∧ ∀ j, 1 ≤ j → j ≤ n → rows.getD j 0 < j
-
-/-- `wrap_optimal_fit` never panics on conforming rows; it returns an overflow error or an
-    ordered partition into non-empty runs (`[[]]` for no fragments) -/
--- @audit TW.C06.optimalFit_partition
-theorem optimalFit_partition (m : β → Frag α) (pen : Penalties) (frs : List β) (lws : List α)
-    (rows : List Nat) (hs : RowsShape rows frs.length) :
-    wrapOptimalFitWith m pen frs lws rows = .overflow ∨
-    ∃ lines, wrapOptimalFitWith m pen frs lws rows = .ok lines ∧ lines.flatten = frs ∧
-      (frs ≠ [] → ∀ l ∈ lines, l ≠ []) ∧ (frs = [] → lines = [[]]) := by
-  unfold wrapOptimalFitWith
-  simp only
-  split
-  · exact Or.inl rfl
-  · right
-    by_cases hn : frs.length = 0
-    · have hf : frs = [] := List.eq_nil_of_length_eq_zero hn
-      subst hf
-      have h0 : rows.getD 0 0 = 0 := hs.1
-      simp only [List.getD_eq_getElem?_getD] at h0
-      simp [backtrackGo, h0]
-    · obtain ⟨segs, h1, h2, h3⟩ := backtrackGo_spec (fun j => rows.getD j 0) frs.length hs.2
-        (frs.length + 1) frs.length (by omega) (Nat.le_refl _) (by omega)
-      rw [h1]
-      refine ⟨_, rfl, ?_, ?_, ?_⟩
-      · have := segs_flatten frs h2
-        simpa using this
-      · intro _ l hl
-        simp only [List.mem_map] at hl
-        obtain ⟨p, hp, rfl⟩ := hl
-        have hb := h2.bounds p (by simpa using hp)
-        intro he
-        have hlen := congrArg List.length he
-        simp only [List.length_take, List.length_drop, List.length_nil] at hlen
-        omega
-      · intro hf; subst hf; simp at hn
+-- `RowsShape` and `optimalFit_partition` live in Lemmas/OptimalShape.lean (shared with C01/C04)
+-- @audit TW.optimalFit_partition
 
 /-- bounds of the left-most arg-min search -/
 theorem argminFrom_le (cost : Nat → α) (fuel i best : Nat) (bv : α) :
@@ -132,7 +97,7 @@ theorem optimalFitNaive_partition (m : β → Frag α) (pen : Penalties) (frs : 
     ∃ lines, wrapOptimalFitNaive m pen frs lws = .ok lines ∧ lines.flatten = frs ∧
       (frs ≠ [] → ∀ l ∈ lines, l ≠ []) ∧ (frs = [] → lines = [[]]) := by
   unfold wrapOptimalFitNaive
-  apply optimalFit_partition
+  apply TW.optimalFit_partition
   have := naive_shape pen lws (frs.map m) (prefixWidths (frs.map m)) frs.length
   simpa using this
 
